@@ -129,7 +129,7 @@ PROPS["C04"] = {
     "undecided": ["name capture", "imports added in other modules for all shapes", "behaviour for all inputs"],
 }
 PROPS["C13"] = {
-    "sidecars": ["c13_caches.py"],
+    "sidecars": ["c13_caches.py", "c13_observer.py"],
     "level": "other",
     "claim": "Proof level for the per-operation cache contracts: after a change notification _FileListCacher either drops its list or the list already contained "
              "the changed file (so a write that creates a file cannot leave a stale list), every create/move/remove/validate notification drops it, and "
